@@ -375,6 +375,29 @@ def lane_semantics(ctx, r, F, fam, b, s8):
            detail={"lane_inputs": 65536, "max_lane_sum": 24})
 
 
+def scalar_kernel_return_max(F):
+    """{kernel path: largest value it can return} for the scalar (pseudo-SIMD) body-distance kernels of this configuration, derived
+    from the same facts R-02.5 decides: the horizontal-sum tail has its family's recorded shape and the bit-sliced core is, per
+    byte lane, the sum of four dibit distances (lane table equal to the reference, no cross-lane bits) -- hence at most 24 per
+    byte.  Kernels for which either fact does not hold get no summary."""
+    if not _REF:
+        _REF.append(_dibit_ref())
+    out = {}
+    for fam, nb in (("pseudo32", 4), ("pseudo64", 8)):
+        path = BODY_KERNELS[fam]
+        b, d = kernel_dag(F, path)
+        if b is None or d is None:
+            continue
+        s8 = split_tail(fam, d) or split_tail(fam, _swap_mul(d))
+        if s8 is None:
+            continue
+        res = lane_eval(s8)
+        if res is None or res[1] or any(res[0][i] != _REF[0][i] for i in range(65536)):
+            continue
+        out[path] = nb * max(_REF[0])
+    return out
+
+
 def kernel_dag(F, path):
     b = F.fn(path)
     if b is None:
